@@ -6,6 +6,7 @@ package main
 
 import (
 	"context"
+	"errors"
 	"fmt"
 	"runtime"
 	"strconv"
@@ -85,6 +86,9 @@ func evalFrames() int {
 }
 
 // freshEnv loads the libraries the way an embedder does and adds the harness builtins.
+// sentinel Go error planted by the harness builtins go-fail! / go-panic! (C03: errors.Is reachability)
+var errSentinel = errors.New("verif sentinel error")
+
 func freshEnv(ec *evalCase) (EnvType, error) {
 	e := env.NewEnv()
 	if err := nscore.Load(e); err != nil {
@@ -104,6 +108,8 @@ func freshEnv(ec *evalCase) (EnvType, error) {
 		ec.marks = append(ec.marks, evalFrames()-ec.base)
 		return nil, nil
 	})
+	call.CallOverrideFN(e, "go-fail!", func() (MalType, error) { return nil, fmt.Errorf("builtin failed: %w", errSentinel) })
+	call.CallOverrideFN(e, "go-panic!", func() (MalType, error) { panic(fmt.Errorf("builtin panicked: %w", errSentinel)) })
 	return e, nil
 }
 
@@ -124,6 +130,8 @@ func canonString(s string) string {
 	}
 	return s
 }
+
+var lastErrIsSentinel bool // whether the error of the last runProgram satisfied errors.Is(err, errSentinel)
 
 var stepMu sync.Mutex // the Stepper and its flags are process-wide
 
@@ -210,7 +218,9 @@ func runProgramIn(ast MalType, cancelAt int, script string, names []string, chil
 	var b strings.Builder
 	if err != nil {
 		b.WriteString(renderErr(err))
+		lastErrIsSentinel = errors.Is(err, errSentinel)
 	} else {
+		lastErrIsSentinel = false
 		b.WriteString("ok " + render(res))
 	}
 	b.WriteString(" trace=[")
